@@ -257,6 +257,35 @@ fn check_schema(ctx: &mut Ctx, b: &[u8], root: &R, seed: u64) {
     let ex = exact(b);
     ctx.ops(1);
     ctx.class("schema:checked");
+    // the schema value comes in every representation: parsed, rebuilt through the mutation API
+    // (owned containers, also the empty ones), to_value of the model's value
+    fn rebuild(v: &Value) -> Value {
+        use sonic_rs::{JsonContainerTrait, JsonValueMutTrait};
+        if let Some(a) = v.as_array() {
+            let mut out = sonic_rs::Array::with_capacity(a.len() + 1);
+            for x in a.iter() {
+                out.push(rebuild(x));
+            }
+            out.into_value()
+        } else if let Some(o) = v.as_object() {
+            let mut out = sonic_rs::Object::with_capacity(o.len() + 1);
+            out.insert("\u{1}tmp", 0);
+            for (k, x) in o.iter() {
+                out.insert(k, rebuild(x));
+            }
+            out.remove(&"\u{1}tmp");
+            let mut val = out.into_value();
+            let _ = val.as_object_mut();
+            val
+        } else {
+            v.clone()
+        }
+    }
+    let schema_v = match seed % 3 {
+        0 => schema_v,
+        1 => rebuild(&schema_v),
+        _ => sonic_rs::to_value(&schema).unwrap_or(schema_v),
+    };
     match sonic_rs::get_by_schema(&ex[..], schema_v) {
         Ok(v) => {
             let got_txt = sonic_rs::to_string(&v).unwrap_or_default();
